@@ -48,10 +48,21 @@ pub fn check_tiling(text: &str) -> Result<(), (String, String)> {
         }
     }
     // OSCAT body region (blanked before lexing)
-    let oscat = match (text.find(OSCAT_OPEN), text.find(OSCAT_CLOSE)) {
-        (Some(a), Some(b)) if a < b => Some((a + OSCAT_OPEN.len(), b)),
-        _ => None,
-    };
+    // (every description block: from an opening marker to the first closing marker behind it)
+    let mut regions: Vec<(usize, usize)> = vec![];
+    {
+        let mut from = 0usize;
+        while let Some(a) = text[from..].find(OSCAT_OPEN) {
+            let body = from + a + OSCAT_OPEN.len();
+            match text[body..].find(OSCAT_CLOSE) {
+                Some(len) => {
+                    regions.push((body, body + len));
+                    from = body + len + OSCAT_CLOSE.len();
+                }
+                None => break,
+            }
+        }
+    }
     let mut cursor = 0usize;
     let mut unit_ok = [true, true, true]; // bytes, chars, utf16
     let mut prev_real_type: Option<TokenType> = None;
@@ -82,16 +93,15 @@ pub fn check_tiling(text: &str) -> Result<(), (String, String)> {
         }
         let slice = &text[s..e];
         if slice != tk.text {
-            let in_oscat = oscat.map(|(a, b)| s >= a && e <= b).unwrap_or(false);
+            let in_oscat = regions.iter().any(|(a, b)| s >= *a && e <= *b);
             // blanking must preserve byte offsets: one blank per byte, line feeds kept
             let blanked: String = slice.bytes().map(|c| if c == b'\n' { '\n' } else { ' ' }).collect();
             if !(in_oscat && blanked == tk.text) {
                 // the OSCAT markers sit inside this token (a string literal or a comment): the
                 // preprocessor blanked part of the token
-                if let Some((a, b)) = oscat {
-                    let partly: String = slice.bytes().enumerate().map(|(k, c)| if s + k >= a && s + k < b && c != b'\n' { ' ' } else { c as char }).collect();
-                    let same_bytes: Vec<u8> = slice.bytes().enumerate().map(|(k, c)| if s + k >= a && s + k < b && c != b'\n' { b' ' } else { c }).collect();
-                    let _ = partly;
+                if !regions.is_empty() {
+                    let inside = |p: usize| regions.iter().any(|(a, b)| p >= *a && p < *b);
+                    let same_bytes: Vec<u8> = slice.bytes().enumerate().map(|(k, c)| if inside(s + k) && c != b'\n' { b' ' } else { c }).collect();
                     if same_bytes == tk.text.as_bytes() {
                         return Err(("token-text-oscat-inside-token".into(), format!("token #{} ({:?}) contains the OSCAT description markers; the text between them was blanked inside the token", i, tk.token_type)));
                     }
